@@ -146,6 +146,30 @@ pub fn child(out: &mut dyn std::io::Write, group: &str, seed: u64, thorough: boo
                 }
             }
         }
+        "finout" => {
+            // digest OUTPUT buffers in guarded memory: finalize_into / finalize_into_reset / finalize_into_dirty must write
+            // exactly the output size, wherever the slice lies
+            let mut algs: Vec<(&str, usize)> = hashes::C08_ALGS.to_vec();
+            algs.extend_from_slice(&[("Skein256", 7), ("Skein512", 24), ("Skein1024", 129), ("Skein256", 65), ("Skein512", 200)]);
+            for (ai, &(alg, n)) in algs.iter().enumerate() {
+                let olen = hashes::out_size(alg, n);
+                for (mi, mlen) in [0usize, 1, hashes::block_size(alg) + 3].iter().enumerate() {
+                    let msg = rng.bytes(*mlen);
+                    let reference = { let mut h = hashes::make_hash(alg, n); h.upd(&msg); h.fin() };
+                    for (place, align) in places(olen + ai + mi, thorough) {
+                        for how in 0..3usize {
+                            g.refill();
+                            r.call(["finalize_into", "finalize_into_reset", "finalize_into_dirty"][how], alg, place, olen, align);
+                            let (off, s) = g.place(place, olen, align);
+                            let res = guarded(|| { let mut h = hashes::make_hash(alg, n); h.upd(&msg); h.fin_into_slice(s, how) });
+                            let o = s.to_vec();
+                            let can = g.canary_ok(off, olen);
+                            r.ret(&o, &reference, can, if res.is_ok() { "ok" } else { "panic" });
+                        }
+                    }
+                }
+            }
+        }
         "tf" => {
             let size: usize = parts[1].parse().unwrap();
             for rep in 0..(if thorough { 8 } else { 3 }) {
@@ -299,6 +323,7 @@ pub fn groups() -> Vec<String> {
     }
     v.push("guts".to_string());
     v.push("ctor".to_string());
+    v.push("finout".to_string());
     v.push("vec".to_string());
     v
 }
